@@ -49,6 +49,10 @@ RLe(a, b)  == RSub(a, b)[1] <= 0
 RLt(a, b)  == RSub(a, b)[1] < 0
 RSign(a)   == IF a[1] > 0 THEN 1 ELSE IF a[1] < 0 THEN -1 ELSE 0
 RIsZero(a) == a[1] = 0
+\* residue of the rational a modulo the prime p (p must not divide the denominator)
+RECURSIVE PowMod(_, _, _)
+PowMod(b, e, p) == IF e = 0 THEN 1 ELSE (b * PowMod(b, e - 1, p)) % p
+RModP(a, p) == ((a[1] % p) * PowMod(a[2] % p, p - 2, p)) % p
 RAdd3(a, b, c)    == RAdd(RAdd(a, b), c)
 RAdd4(a, b, c, d) == RAdd(RAdd(a, b), RAdd(c, d))
 
